@@ -1062,7 +1062,7 @@ def gen_c13(rng, size=50):
         cfg["tf"] = base_tf
     for m in members:
         m["tf"] = shared_tf
-        m["form"] = rng.choice(["obj", "obj", "dict"])
+        m["form"] = rng.choice(["obj", "obj", "dict", "obj_used"])
     if cfg["tf"] and rng.random() < 0.5:
         # the other members name the Hexital's own timeframe explicitly: a second manager over the same buckets
         for m in members[1:]:
@@ -1345,7 +1345,7 @@ def gen_c19_objects(rng, multi_tf=True):
             break
         m = gen_spec(rng)
         m["tf"] = rng.choice(pool) if use_tf and rng.random() < 0.6 else None
-        m["form"] = rng.choice(["obj", "dict"])
+        m["form"] = rng.choice(["obj", "dict", "obj_used"])
         if not names_collide(members + [m], cfg, cross=True):
             members.append(m)
     if rng.random() < 0.15:
